@@ -63,6 +63,9 @@ def gen_small(rng, prop, job):
 
 def make_jobs(prop, tier, seed):
     jobs = plug.std_jobs(prop, tier, seed, "m4", n_quick=16, per_quick=8, schedules=6)
+    # a Queue parks its callers in Lock.wait() on Signals and wakes them through `closed` / tills: the Signal layer (M1) and the
+    # Lock's hand-over (M3) are part of every Queue property
+    jobs.extend(plug.m1_layer_jobs(prop, tier, seed))
     if prop == "C07":
         for j in range(1 if tier == "quick" else 4):
             jobs.append({"kind": "explore", "long_idle": True, "prop": prop, "seed": seed * 22801763 + j, "scenarios": 1, "schedules": 1})
@@ -79,12 +82,19 @@ def search_jobs(prop, tier, seed, corr_fail):
 
 
 def run_job(job):
+    if job["kind"] == "layer":
+        return plug.run_m1_layer(job, "the model of Queue (Lock.wait() parks on one Signal and is woken by go())")
+    r = plug.m1_layer_replay(job)
+    if r is not None:
+        return r
     if job["kind"] == "pbound":
         return plug.pbound_job(MODEL, gen_small, job)
     return plug.std_job(MODEL, gen, job)
 
 
 def shrink(prop, failure):
+    if (failure.get("replay") or {}).get("model") == "m1-layer":
+        return failure
     return plug.std_shrink(MODEL, prop, failure)
 
 
